@@ -191,8 +191,11 @@ impl Edit {
                 if o.is_empty() {
                     return None;
                 }
-                for (i, (_, v)) in o.iter_mut().enumerate() {
-                    *v = json!(i as u64 + 1);
+                for (i, (k, v)) in o.iter_mut().enumerate() {
+                    // the three parameters the configuration is derived from keep their values
+                    if k != "cpu_component_step" && k != "num_columns_first" && k != "num_columns_second" {
+                        *v = json!(i as u64 + 1000);
+                    }
                 }
             }
         }
